@@ -80,6 +80,14 @@ def handle (line : String) : String :=
       let (u, c) ← readBool c
       if !c.atEnd then none
       pure (toString (initMeshGamma rev a b u))
+    | "banddirs" =>
+      -- banddirs k (throughGamma npts)*k : per segment, per point the direction label (s<k> or none)
+      let (k, c) ← c.nat?
+      let (v, c) ← c.nats? (2 * k)
+      if !c.atEnd then none
+      let segs : List Seg := (List.range k).map fun i => ⟨v.getD (2 * i) 0 != 0, v.getD (2 * i + 1) 0⟩
+      let show1 : Option Nat → String := fun o => match o with | none => "none" | some n => s!"s{n}"
+      pure (" ; ".intercalate ((bandDirs segs).map fun l => " ".intercalate (l.map show1)))
     | "conn" =>
       -- conn n <n*n overlaps, row major> <prev band order, n entries>
       let (n, c) ← c.nat?
